@@ -23,8 +23,9 @@
 //        ord: a = arrival order, f = fixed order (only with num=c|s|l);  del: how status d is carried out:
 //        m = RemoteIndexListModifier<.,.,true>::remove + modifier.repairLocalIndexPointers(), r = SLList modify
 //        iterators + Dune::repairLocalIndexPointers as dune/common/parallel/test/syncertest.cc does;
-//        re (second round, default 0): s = sync again with a new IndicesSyncer object; d = first delete the status-d
-//        copies again (those the first sync restored), then sync again.
+//        re (second round, default 0): s = sync again with the same IndicesSyncer object; d = first delete the status-d
+//        copies again (those the first sync restored), then sync with a new IndicesSyncer object.  Nothing
+//        synchronises the processes between the two rounds.
 // answer of one rank:  A(<state before the first sync>) B(<state after it>) [C(<state after the second sync>)]
 //   state = I[<g><attr>:<local>,...] N<q>[<g><ownattr><remoteattr>@<position in I>,...] ... [S<0|1>] [K<calls> F<free slots> X<next fresh>]
 //   (S only after a sync, K F X only for num=s|l)
@@ -36,6 +37,7 @@
 #include <deque>
 #include <list>
 #include <map>
+#include <memory>
 #include <set>
 #include <sstream>
 
@@ -484,18 +486,20 @@ static Result exec(const std::string& line) {
   uint64_t jitterSeed = 1469598103934665603ull;
   for (char ch : line) jitterSeed = (jitterSeed ^ (unsigned char)ch) * 1099511628211ull;
   Rng jitter(jitterSeed * 64 + (uint64_t)rank);
+  std::unique_ptr<Dune::IndicesSyncer<PIS>> syncer;
   auto doSync = [&]() {
     static const int DELAY[] = {0, 0, 0, 100, 300, 600, 1000, 1500};
     int d = DELAY[jitter.below(8)];
     if (d && c.np > 1) usleep(d);
-    Dune::IndicesSyncer<PIS> syncer(is, ri);
+    // re=s syncs again with the same IndicesSyncer object, re=d (the index set was modified in between) with a new one
+    if (!syncer || c.re != 's') syncer.reset(new Dune::IndicesSyncer<PIS>(is, ri));
     if (c.num == 'c') {
       CustomNumberer num;
-      syncer.sync(num, c.fixed);
+      syncer->sync(num, c.fixed);
     } else if (c.stateful())
-      syncer.sync(counting, c.fixed);
+      syncer->sync(counting, c.fixed);
     else
-      syncer.sync();
+      syncer->sync();
   };
   auto inserted = [&](const World& before, const World& after) {
     long n = 0;
